@@ -281,6 +281,20 @@ def _interleaved_query():
     MPR.mpr_penetration(_DUMMY[2], _DUMMY[3])     # origin-on-segment arm
 
 
+def face_set_stats(faces):
+    """(number of triangles that occur more than once, number of undirected edges that are not shared by exactly two
+    triangles) of the face array epa() returned; vertices are compared bitwise (they are copies of support differences)"""
+    tri, edges = {}, {}
+    for f in np.asarray(faces, dtype=float):
+        vs = [f[k].tobytes() for k in range(3)]
+        key = frozenset(vs)
+        tri[key] = tri.get(key, 0) + 1
+        for a, b in ((0, 1), (1, 2), (2, 0)):
+            e = frozenset((vs[a], vs[b]))
+            edges[e] = edges.get(e, 0) + 1
+    return (int(sum(1 for v in tri.values() if v > 1)), int(sum(1 for v in edges.values() if v != 2)))
+
+
 def rows_supported(simplex, r1, r2):
     """per row: bitwise equal to some p_k - q_k of the support points GJK was given"""
     D = [p - q for p, q in zip(r1.pts, r2.pts)]
@@ -326,6 +340,8 @@ def run_op(op, s1, s2):
                 out["stage"] = "epa"
                 mtv, faces, success = EPA.epa(simplex, c1, c2, **kw)
                 out.update(mtv=arr(mtv), success=bool(success), n_faces=int(len(faces)) if faces is not None else None)
+                if faces is not None:
+                    out["faces_duplicate"], out["faces_open_edges"] = face_set_stats(faces)
             else:
                 out["skipped"] = "gjk reports no overlap"
         elif name == "mpr_pen":
